@@ -304,3 +304,45 @@ theorem nm_reconfigured_evaluations_constrained [Add R] [Sub R] [Mul R] [Div R] 
     exact hC g hg _ (hk p hpt).2.1
 
 end MysticVerif.Reconfig
+
+/-! ### C01 under reconfiguration: where the reported best comes from -/
+
+namespace MysticVerif.Reconfig
+open MysticVerif.Solver
+
+variable {X E : Type}
+
+/-- **C01 for reconfigured differential-evolution runs.** A finite reported best energy is cost + penalty at the reported
+best solution UNDER THE SETTINGS OF SOME ITERATION OF THE RUN (the one that found it), and the reported best solution was
+passed to the user's cost, is left unchanged by that iteration's constraints and lies in that iteration's box.  (With a
+penalty switched later the stored energy is NOT re-evaluated: the monitors' known class `penalty-changed-mid-run`.) -/
+theorem reconfigured_best_origin [LinearOrder E] (T : E) :
+    ∀ (gs : List (DEGen X E)) (s : DE X E), (∀ g ∈ gs, Hyp g.o ∧ g.o.top = T) →
+      GoodAny (fun o => ∃ g ∈ gs, g.o = o) T s.log s.best s.bestE →
+      GoodAny (fun o => ∃ g ∈ gs, g.o = o) T (DE.runCfg gs s).log (DE.runCfg gs s).best (DE.runCfg gs s).bestE := by
+  -- generalised over the family of admissible objectives
+  have gen : ∀ (S : Obj X E → Prop) (gs : List (DEGen X E)) (s : DE X E), (∀ g ∈ gs, Hyp g.o ∧ g.o.top = T ∧ S g.o) →
+      GoodAny S T s.log s.best s.bestE →
+      GoodAny S T (DE.runCfg gs s).log (DE.runCfg gs s).best (DE.runCfg gs s).bestE := by
+    intro S gs
+    induction gs with
+    | nil => intro s _ hs; exact hs
+    | cons g gs ih =>
+      intro s h hs
+      have hg := h g (by simp)
+      have : DE.runCfg (g :: gs) s = DE.runCfg gs (DE.genStep g s) := rfl
+      rw [this]
+      apply ih _ (fun g' hg' => h g' (by simp [hg']))
+      have := DE.genStep_bestAny (S := S) g hg.1 hg.2.2 s (by rw [hg.2.1]; exact hs)
+      rw [hg.2.1] at this
+      exact this
+  intro gs s h hs
+  exact gen _ gs s (fun g hg => ⟨(h g hg).1, (h g hg).2, g, hg, rfl⟩) hs
+
+/-- the start of a run: best decoupled with energy `inf` -/
+theorem init_bestAny (S : Obj X E → Prop) (o : Obj X E) (pop : List X) (x0 : X) :
+    GoodAny S o.top (DE.init o pop x0).log (DE.init o pop x0).best (DE.init o pop x0).bestE := by
+  intro he
+  exact absurd rfl he
+
+end MysticVerif.Reconfig
